@@ -44,7 +44,11 @@ def template(prefix: str, depth: int):
 def base_spec():
     e = [("out", "d", None), ("out/secret.md", "f", "SECRET-1\n"), ("out/secret.oct.md", "f", "SECRET-2\n"),
          ("out/f.md", "f", "SECRET-3\n"), ("out/d", "d", None), ("out/d/f.md", "f", "SECRET-4\n"),
-         ("sb", "d", None)]
+         ("sb", "d", None),
+         # neighbours whose NAME merely starts with the name of an allowed directory (a string-prefix containment test accepts them)
+         ("sb-private", "d", None), ("sb-private/f.md", "f", "SECRET-5\n"), ("sbx", "d", None), ("sbx/f.md", "f", "SECRET-6\n"),
+         ("sb/d-private", "d", None), ("sb/d-private/f.md", "f", OCT), ("sb/dx", "d", None), ("sb/dx/f.md", "f", OCT),
+         ("sb/d/d-private", "d", None), ("sb/d/d-private/f.md", "f", OCT)]
     return e + template("sb/", 2)
 
 
